@@ -85,8 +85,10 @@ def parse_event(line):
 
 
 class Zsim:
-    def __init__(self, exe, tests_dir=None, tmpdir=None):
+    def __init__(self, exe, tests_dir=None, tmpdir=None, extra_env=None):
         self.exe = exe
+        self.extra_env = extra_env
+        self.slow = None
         self.tmpdir = tmpdir or tempfile.mkdtemp(prefix="zsim-", dir=os.path.join(HERE, "build"))
         self.env = dict(os.environ)
         self.env["LC_ALL"] = "C"
@@ -94,6 +96,8 @@ class Zsim:
         self.env["ZSIM_REPORT_PATH"] = os.path.join(self.tmpdir, "san.%d" % os.getpid())
         if tests_dir:
             self.env["ZSIM_TESTS_DIR"] = tests_dir
+        if extra_env:
+            self.env.update(extra_env)
         self.proc = None
         self.count = 0
         self.start()
@@ -106,7 +110,19 @@ class Zsim:
         if not line.startswith(b"=ready"):
             raise RuntimeError("zsim did not start: %r" % line)
 
+    def run_slow_unwind(self, plan):
+        """The same plan in a worker whose allocator records full (slow
+        unwinder) stacks; used to attribute leaks reported with a truncated
+        stack."""
+        if self.slow is None:
+            self.slow = Zsim(self.exe, extra_env={
+                "ASAN_OPTIONS": "fast_unwind_on_malloc=0:malloc_context_size=30"})
+        return self.slow.run(plan)
+
     def close(self):
+        if self.slow is not None:
+            self.slow.close()
+            self.slow = None
         if self.proc is not None:
             try:
                 self.proc.stdin.close()
